@@ -221,6 +221,9 @@ theorem satT_finish_error {I : σ → Prop} {R E} {x : Stm σ Unit} (h : SatT I 
   · simp only [finish_error] at he ⊢; cases he; exact h
   · simp [finish] at he
   · exact absurd h id
+theorem satT_finish {I : σ → Prop} {R E} {x : Stm σ Unit} (h : SatT I R E x) :
+    (∀ v, (finish x).2 = .ok v → R (finish x).1 v) ∧ (∀ e, (finish x).2 = .error e → E (finish x).1 e) :=
+  ⟨satT_finish_ok h, satT_finish_error h⟩
 /-- every way out satisfies `P` -/
 theorem satT_finish_all {P : σ → Prop} {x : Stm σ Unit} (h : SatT P (fun s _ => P s) (fun s _ => P s) x) : P (finish x).1 := by
   rcases x with ⟨st, (e' | (v' | s))⟩
@@ -371,5 +374,52 @@ def obsVal : EtagObs → PyVal
   | .tag t => .str t
   | .none => .none
   | .nonStr => .int 0
+
+/-- the body of a non-304, non-error answer denotes the stored content `b`, whichever way `load()` gets at it: `.json()` (either call
+    site), or the text handed to `parse_policy_text` -/
+structure Delivers (enc : Doc → PyVal) (b : Blob) (r : Resp) (url : PyVal) (parse : PyVal → PyVal → PyVal → Except Exc PyVal) : Prop where
+  json_ok : ∀ i v, r.callJson i = .ok v → b.valid = true ∧ v = enc b.doc
+  json_err : ∀ i e, r.callJson i = .error e → Rbacx.PyX.catches ["Exception"] e = true
+  decode_err : ∀ k e, r.decode k = .error e → Rbacx.PyX.catches ["Exception"] e = true
+  parse_ok : ∀ t c v, parse t url c = .ok v → b.valid = true ∧ v = enc b.doc
+  parse_err : ∀ t c e, parse t url c = .error e → b.valid = false ∧ Rbacx.PyR.excOf e.cls = .jsonDecode
+
+/-- REFINEMENT: how the outcome `g` of the one request and the parser outcomes reflect the model world `w` -/
+inductive Answers (enc : Doc → PyVal) (w : HttpW) (url : PyVal) (parse : PyVal → PyVal → PyVal → Except Exc PyVal) :
+    Except Exc Resp → Prop where
+  /-- the one-shot fault is a transport error -/
+  | transportFault (c : Reloader.Exc) (e : Exc) : w.failNext = some c → Rbacx.PyR.excOf e.cls = c → Answers enc w url parse (.error e)
+  /-- the one-shot fault is an error status: `raise_for_status()` raises -/
+  | statusFault (c : Reloader.Exc) (r : Resp) (e : Exc) : w.failNext = some c → pyEq (r.attr "status_code") (.int 304) = false →
+      r.has "raise_for_status" = true → r.callRaise = .error e → Rbacx.PyR.excOf e.cls = c → Answers enc w url parse (.ok r)
+  /-- nothing is served: 404 -/
+  | notFound (r : Resp) (e : Exc) : w.failNext = Option.none → w.server = Option.none → pyEq (r.attr "status_code") (.int 304) = false →
+      r.has "raise_for_status" = true → r.callRaise = .error e → Rbacx.PyR.excOf e.cls = .other "HTTPError" → Answers enc w url parse (.ok r)
+  /-- the server honours `If-None-Match` and the tag sent is the current one: 304 -/
+  | notModified (b : Blob) (r : Resp) : w.failNext = Option.none → w.server = some b → w.notModified b = true →
+      pyEq (r.attr "status_code") (.int 304) = true → Answers enc w url parse (.ok r)
+  /-- 200: the `ETag` header is the server's tag (absent when it sends none), the body denotes the stored content -/
+  | ok (b : Blob) (r : Resp) : w.failNext = Option.none → w.server = some b → w.notModified b = false →
+      pyEq (r.attr "status_code") (.int 304) = false → (r.has "raise_for_status" = true → ∃ x, r.callRaise = .ok x) →
+      HeadersRaiseExceptions r → etagHeaderOf r = Rbacx.PyR.tagVal (w.srvTag b) → Delivers enc b r url parse → Answers enc w url parse (.ok r)
+
+theorem srvTag_ne_empty (w : HttpW) (b : Blob) (t : Tag) (h : w.srvTag b = some t) : t ≠ "" := by
+  unfold HttpW.srvTag at h
+  split at h
+  · split at h
+    · split at h <;> simp_all
+    · simp at h
+  · simp at h
+
+/-- the tag the code remembers after a 200 is the model's `newTag` -/
+theorem newEtag_model (w : HttpW) (b : Blob) (r : Resp) (h : etagHeaderOf r = Rbacx.PyR.tagVal (w.srvTag b)) :
+    newEtag (Rbacx.PyR.tagVal w.cachedTag) r = Rbacx.PyR.tagVal (w.newTag b) := by
+  unfold newEtag HttpW.newTag
+  rw [h]
+  cases hs : w.srvTag b with
+  | none => simp [Rbacx.PyR.tagVal, PyVal.isStr]
+  | some t =>
+    have := srvTag_ne_empty w b t hs
+    simp [Rbacx.PyR.tagVal, PyVal.isStr, PyVal.truthy, this]
 
 end Rbacx.PyH
